@@ -6,19 +6,19 @@
 (* operation (x op y for all y of the box, the unary operations, integer   *)
 (* operations, conversions) for REPLAY on pennylane's ZSqrtTwo / ZOmega /  *)
 (* DyadicMatrix / SO3Matrix classes.                                       *)
-(*   MODE "s2"   x in Z[sqrt2], box B2: pair laws (all y), row emitted     *)
-(*   MODE "s2t"  (x, y) in the box B2: triple laws (all z)                 *)
-(*   MODE "om"   x in Z[omega], box BO: pair laws (all y), row emitted;    *)
+(*   mode "s2"   x in Z[sqrt2], box B2: pair laws (all y), row emitted     *)
+(*   mode "s2t"  (x, y) in the box B2: triple laws (all z)                 *)
+(*   mode "om"   x in Z[omega], box BO: pair laws (all y), row emitted;    *)
 (*               the product is cross-checked against Cyclo.tla (M = 3)    *)
-(*   MODE "omt"  (x, y) in the box BT: triple laws (all z)                 *)
-(*   MODE "mat"  A = word over {H, T} of length <= WLEN: unitarity, SO(3)  *)
+(*   mode "omt"  (x, y) in the box BT: triple laws (all z)                 *)
+(*   mode "mat"  A = word over {H, T} of length <= WLEN: unitarity, SO(3)  *)
 (*               orthogonality and homomorphism, (anti)automorphisms,      *)
 (*               associativity / distributivity with all B, row emitted    *)
 (***************************************************************************)
 EXTENDS ZRings, Json, FiniteSets, SequencesExt
-CONSTANTS MODE, B2, BO, BT, WLEN
-VARIABLES i, j, done
-vars == <<i, j, done>>
+CONSTANTS MODES, B2, BO, BE, BT, WLEN          \* MODES: the subset of {"s2", "s2t", "om", "omt", "mat"} to run (one JVM)
+VARIABLES mode, i, j, done
+vars == <<mode, i, j, done>>
 C == INSTANCE Cyclo WITH M <- 3
 
 Box(B) == (-B)..B
@@ -27,6 +27,8 @@ OmSet(B) == Box(B) \X Box(B) \X Box(B) \X Box(B)
 S2Seq == TLCEval(SetToSeq(S2Set(B2)))
 OmSeq == TLCEval(SetToSeq(OmSet(BO)))
 OmTSeq == TLCEval(SetToSeq(OmSet(BT)))
+OmESeq == TLCEval(SetToSeq(OmSet(BE)))            \* the operands y of the emitted rows
+NOmE == Len(OmESeq)
 NS2 == Len(S2Seq)
 NOm == Len(OmSeq)
 NOmT == Len(OmTSeq)
@@ -42,19 +44,19 @@ MatOfWord(w, n) == IF n = 0 THEN M2Id ELSE M2Mul(MatOfWord(w, n - 1), IF w[n] = 
 Mats == TLCEval([n \in 1..NW |-> MatOfWord(WordSeq[n], Len(WordSeq[n]))])
 SO3s == TLCEval([n \in 1..NW |-> SO3Ref(Mats[n])])
 
-Init == /\ done = FALSE
-        /\ CASE MODE = "s2" -> (i \in 1..NS2 /\ j = 0)
-             [] MODE = "s2t" -> (i \in 1..NS2 /\ j \in 1..NS2)
-             [] MODE = "om" -> (i \in 1..NOm /\ j = 0)
-             [] MODE = "omt" -> (i \in 1..NOmT /\ j \in 1..NOmT)
-             [] MODE = "mat" -> (i \in 1..NW /\ j = 0)
+Init == /\ done = FALSE /\ mode \in MODES
+        /\ CASE mode = "s2" -> (i \in 1..NS2 /\ j = 0)
+             [] mode = "s2t" -> (i \in 1..NS2 /\ j \in 1..NS2)
+             [] mode = "om" -> (i \in 1..NOm /\ j = 0)
+             [] mode = "omt" -> (i \in 1..NOmT /\ j \in 1..NOmT)
+             [] mode = "mat" -> (i \in 1..NW /\ j = 0)
 
 (* ------------------------------- rows ---------------------------------- *)
 S2Row(x) ==
   [kind |-> "s2", x |-> x,
-   add |-> [n \in 1..NS2 |-> S2Add(x, S2Seq[n])], sub |-> [n \in 1..NS2 |-> S2Sub(x, S2Seq[n])],
-   mul |-> [n \in 1..NS2 |-> S2Mul(x, S2Seq[n])],
-   quot |-> [n \in 1..NS2 |-> LET y == S2Seq[n] IN IF y # S2Zero /\ S2Divides(y, x) THEN S2Quot(x, y) ELSE <<>>],
+   add |-> [n \in 1..NS2 |-> S2AddV(x, S2Seq[n])], sub |-> [n \in 1..NS2 |-> S2SubV(x, S2Seq[n])],
+   mul |-> [n \in 1..NS2 |-> S2MulV(x, S2Seq[n])],
+   quot |-> [n \in 1..NS2 |-> IF S2Seq[n] # S2Zero /\ S2Divides(S2Seq[n], x) THEN S2Quot(x, S2Seq[n]) ELSE <<>>],
    neg |-> S2Neg(x), conj |-> S2Conj(x), adj2 |-> S2Adj2(x), abs |-> S2Norm(x),
    pow |-> [n \in 1..5 |-> S2Pow(x, n - 1)], toom |-> S2ToOm(x),
    addi |-> [n \in 1..Len(Ints) |-> S2Add(x, S2Int(Ints[n]))], muli |-> [n \in 1..Len(Ints) |-> S2Scale(Ints[n], x)],
@@ -66,8 +68,8 @@ S2Row(x) ==
 SmallS2 == TLCEval(SetToSeq(S2Set(1)))
 OmRow(x) ==
   [kind |-> "om", x |-> x,
-   add |-> [n \in 1..NOm |-> OmAdd(x, OmSeq[n])], sub |-> [n \in 1..NOm |-> OmSub(x, OmSeq[n])],
-   mul |-> [n \in 1..NOm |-> OmMul(x, OmSeq[n])],
+   add |-> [n \in 1..NOmE |-> OmAddV(x, OmESeq[n])], sub |-> [n \in 1..NOmE |-> OmSubV(x, OmESeq[n])],
+   mul |-> [n \in 1..NOmE |-> OmMulV(x, OmESeq[n])],
    neg |-> OmNeg(x), conj |-> OmConj(x), adj2 |-> OmAdj2(x), abs |-> OmAbs(x), norm |-> OmNormEl(x),
    pow |-> [n \in 1..4 |-> OmPow(x, n - 1)],
    real |-> OmIsReal(x), tos2 |-> IF OmIsReal(x) THEN OmToS2(x) ELSE <<>>,
@@ -87,13 +89,12 @@ MatRow(n) ==
    sum |-> [m \in 1..NW |-> M2Canon(M2Add(A, Mats[m]))],
    so3prod |-> [m \in 1..NW |-> M3Canon(M3Mul(SO3s[n], SO3s[m]))]]
 
-Header == [kind |-> "hdr", s2 |-> S2Seq, om |-> IF MODE = "om" THEN OmSeq ELSE <<>>, ints |-> Ints, pos |-> PosInts,
-           small |-> SmallS2, words |-> IF MODE = "mat" THEN WordSeq ELSE <<>>]
-Emit == /\ ~done /\ done' = TRUE /\ UNCHANGED <<i, j>>
-        /\ (i = 1 /\ j \in {0, 1}) => PrintT(ToJson(Header))
-        /\ CASE MODE = "s2" -> PrintT(ToJson(S2Row(S2Seq[i])))
-             [] MODE = "om" -> PrintT(ToJson(OmRow(OmSeq[i])))
-             [] MODE = "mat" -> PrintT(ToJson(MatRow(i)))
+Header == [kind |-> "hdr", s2 |-> S2Seq, om |-> OmESeq, ints |-> Ints, pos |-> PosInts, small |-> SmallS2, words |-> WordSeq]
+Emit == /\ ~done /\ done' = TRUE /\ UNCHANGED <<mode, i, j>>
+        /\ (i = 1 /\ j \in {0, 1} /\ mode = CHOOSE m \in MODES : TRUE) => PrintT(ToJson(Header))
+        /\ CASE mode = "s2" -> \A x \in {S2Seq[i]} : PrintT(ToJson(S2Row(x)))
+             [] mode = "om" -> \A x \in {OmSeq[i]} : PrintT(ToJson(OmRow(x)))
+             [] mode = "mat" -> PrintT(ToJson(MatRow(i)))
              [] OTHER -> TRUE
 Next == Emit
 
@@ -125,8 +126,8 @@ S2Triple(x, y, z) ==
   /\ S2AddV(S2AddV(x, y), z) = S2AddV(x, S2AddV(y, z)) /\ S2MulV(xy, z) = S2MulV(x, yz)
   /\ S2MulV(x, S2AddV(y, z)) = S2AddV(xy, xz)
   /\ S2MulV(S2AddV(x, y), z) = S2AddV(xz, yz)
-LawS2 == (MODE = "s2" /\ done) => \A x \in {S2Seq[i]} : S2Unary(x) /\ \A y \in S2Set(B2) : S2Pair(x, y)
-LawS2T == (MODE = "s2t" /\ done) => \A x \in {S2Seq[i]}, y \in {S2Seq[j]} : \A z \in S2Set(B2) : S2Triple(x, y, z)
+LawS2 == (mode = "s2" /\ done) => \A x \in {S2Seq[i]} : S2Unary(x) /\ \A y \in S2Set(B2) : S2Pair(x, y)
+LawS2T == (mode = "s2t" /\ done) => \A x \in {S2Seq[i]}, y \in {S2Seq[j]} : \A z \in S2Set(B2) : S2Triple(x, y, z)
 
 (* ------------------------------- laws: Z[omega] ------------------------ *)
 OmConsts ==
@@ -148,8 +149,8 @@ OmUnary(x) ==
   /\ SeqAllEvenV(OmMulV(r2, OmRoot2)) /\ OmHalveV(OmMulV(r2, OmRoot2)) = x
   /\ OmPow(x, 3) = OmMulV(x, OmMulV(x, x)) /\ OmPow(x, 0) = OmOne /\ OmPow(x, 1) = x
   /\ OmConjV(x) = ToCyclo(C!Conj(ToCyclo(x)))
-OmPair(x, y) ==
-  \A xy \in {OmMulV(x, y)}, s \in {OmAddV(x, y)}, nx \in {OmNormElV(x)}, ny \in {OmNormElV(y)} :
+OmPair(x, y, nx) ==
+  \A xy \in {OmMulV(x, y)}, s \in {OmAddV(x, y)}, ny \in {OmNormElV(y)} :
   /\ s = OmAddV(y, x) /\ xy = OmMulV(y, x)
   /\ OmSubV(x, y) = OmAddV(x, OmNegV(y)) /\ OmAddV(OmSubV(x, y), y) = x
   /\ OmConjV(xy) = OmMulV(OmConjV(x), OmConjV(y)) /\ OmConjV(s) = OmAddV(OmConjV(x), OmConjV(y))
@@ -157,19 +158,27 @@ OmPair(x, y) ==
   /\ OmNormElV(xy) = OmMulV(nx, ny)
   /\ S2NormV(OmToS2V(OmNormElV(xy))) = S2NormV(OmToS2V(nx)) * S2NormV(OmToS2V(ny))
   /\ (xy = OmZero => (x = OmZero \/ y = OmZero))
-  /\ \A cx \in {ToCyclo(x)}, cy \in {ToCyclo(y)} :                \* second, independent implementation
-        xy = ToCyclo(C!MulG(cx, cy)) /\ xy = ToCyclo(C!Mul(cx, cy))
-  /\ OmDividesV(y, xy)
-OmTriple(x, y, z) ==
-  \A xy \in {OmMulV(x, y)}, yz \in {OmMulV(y, z)}, xz \in {OmMulV(x, z)} :
-  /\ OmAddV(OmAddV(x, y), z) = OmAddV(x, OmAddV(y, z)) /\ OmMulV(xy, z) = OmMulV(x, yz)
+  /\ xy = ToCyclo(C!Mul(ToCyclo(x), ToCyclo(y)))                 \* second, independent implementation (Cyclo.tla, M = 3)
+\* on the small box also: the generic negacyclic convolution of Cyclo.tla, and exact divisibility y | x*y
+OmPairT(x, y) ==
+  \A xy \in {OmMulV(x, y)} :
+  /\ xy = OmMulDef(x, y) /\ OmConjV(x) = OmConjDef(x) /\ OmAdj2V(x) = OmAdj2Def(x)
+  /\ \A cx \in {ToCyclo(x)}, cy \in {ToCyclo(y)} : xy = ToCyclo(C!MulG(cx, cy)) /\ xy = ToCyclo(C!Mul(cx, cy))
+  /\ y # OmZero => OmDividesV(y, xy)
+  /\ (y # OmZero /\ (\E q \in OmSet(BT) : OmMulV(q, y) = x)) => OmDividesV(y, x)
+\* x, y fixed per state: xy, x + y are passed in evaluated
+OmTriple(x, y, z, xy, s) ==
+  \A yz \in {OmMulV(y, z)}, xz \in {OmMulV(x, z)} :
+  /\ OmAddV(s, z) = OmAddV(x, OmAddV(y, z)) /\ OmMulV(xy, z) = OmMulV(x, yz)
   /\ OmMulV(x, OmAddV(y, z)) = OmAddV(xy, xz)
-  /\ OmMulV(OmAddV(x, y), z) = OmAddV(xz, yz)
+  /\ OmMulV(s, z) = OmAddV(xz, yz)
 \* pairs are checked once per unordered pair (every conjunct of OmPair is symmetric or checks both orders)
-LawOm == (MODE = "om" /\ done) => \A x \in {OmSeq[i]} :
+LawOm == (mode = "om" /\ done) => \A x \in {OmSeq[i]} :
             /\ OmUnary(x) /\ (i = 1 => OmConsts)
-            /\ \A n \in i..NOm : \A y \in {OmSeq[n]} : (y = OmZero \/ x = OmZero \/ OmPair(x, y))
-LawOmT == (MODE = "omt" /\ done) => \A x \in {OmTSeq[i]}, y \in {OmTSeq[j]} : \A z \in OmSet(BT) : OmTriple(x, y, z)
+            /\ \A nx \in {OmNormElV(x)} : \A n \in i..NOm : \A y \in {OmSeq[n]} : OmPair(x, y, nx)
+LawOmT == (mode = "omt" /\ done) => \A x \in {OmTSeq[i]}, y \in {OmTSeq[j]} :
+             /\ OmPairT(x, y)
+             /\ \A xy \in {OmMulV(x, y)}, s \in {OmAddV(x, y)} : \A z \in OmSet(BT) : OmTriple(x, y, z, xy, s)
 
 (* ------------------------------- laws: matrices ------------------------ *)
 MatUnary(n) ==
@@ -187,10 +196,10 @@ MatPair(n, m) ==
   /\ M2ValEq(M2Adj2V(AB), M2MulV(M2Adj2V(A), M2Adj2V(B))) /\ M2ValEq(M2Adj2V(S), M2AddV(M2Adj2V(A), M2Adj2V(B)))
   /\ M2ValEq(M2DaggerV(AB), M2MulV(M2DaggerV(B), M2DaggerV(A)))
   /\ M2ValEq(S, M2AddV(B, A))
-  /\ \A D \in {M2H, M2T, M2MulV(M2T, M2H)} : \A BD \in {M2MulV(B, D)}, AD \in {M2MulV(A, D)} :
+  /\ \A D \in {M2MulV(M2T, M2H)} : \A BD \in {M2MulV(B, D)}, AD \in {M2MulV(A, D)} :
         /\ M2ValEq(M2MulV(AB, D), M2MulV(A, BD))
         /\ M2ValEq(M2MulV(A, M2AddV(B, D)), M2AddV(AB, AD))
         /\ M2ValEq(M2MulV(S, D), M2AddV(AD, BD))
         /\ M2ValEq(M2AddV(S, D), M2AddV(A, M2AddV(B, D)))
-LawMat == (MODE = "mat" /\ done) => MatUnary(i) /\ \A m \in 1..NW : MatPair(i, m)
+LawMat == (mode = "mat" /\ done) => MatUnary(i) /\ \A m \in 1..NW : MatPair(i, m)
 =============================================================================
